@@ -62,6 +62,31 @@ class LockModel:
                 "callback": cb,
                 "name": f.name,
             }
+        # a wrapper method that takes the lock through another accessor of the same wrapper on `self` (`read_fn` built on
+        # `read()`, `write_fn` on a private `write_guard()`) is an accessor of the same mode: the acquisition site stays the
+        # caller's `self.<field>.write_fn(..)`, whose receiver names the lock
+        changed = True
+        while changed:
+            changed = False
+            for f in self.F.fns.values():
+                if f.id in out or f.kind != "method" or f.j.get("self_adt") not in self.wrappers or f.j.get("trait") or not f.blocks:
+                    continue
+                mode, cb = None, False
+                for c in f.calls():
+                    if f.is_cleanup(c.bb):
+                        continue
+                    if c.target_id in out and self.F.fns[c.target_id].j.get("self_adt") == f.j.get("self_adt") and c.args:
+                        from terms import origin as _origin, _strip_refs
+                        r = _strip_refs(_origin(f, c.args[0]))
+                        if r[0] == "param" and r[1] == 1:
+                            m2 = out[c.target_id]["mode"]
+                            mode = "W" if "W" in (mode, m2) else "R"
+                    if c.trait in ("std::ops::FnOnce", "std::ops::FnMut", "std::ops::Fn") and c.res is None:
+                        cb = True
+                if mode is None:
+                    continue
+                out[f.id] = {"mode": mode, "returns_guard": bool(GUARD_RE.search(f.j.get("output", ""))), "callback": cb, "name": f.name}
+                changed = True
         return out
 
     def _raw_lock_sites(self):
